@@ -780,6 +780,11 @@ impl Walrus {
                 });
                 planned_bytes += (end - cur_off) as usize;
             }
+            if end < block.used {
+                // The budget ends inside this block: nothing behind it (later blocks, the tail) may
+                // be planned, or it would be delivered ahead of the entries left in this block
+                break;
+            }
             cur_idx += 1;
             cur_off = 0;
         }
